@@ -216,6 +216,7 @@ func runC17(t *rapid.T) {
 			ops = append(ops, o)
 		case 5, 6:
 			ops = append(ops, lop{Kind: "show"})
+			w.S.Note(hx.Fingerprint(cfg, ops))
 		case 7:
 			o := lop{Kind: "register", R: drawLegacyRune(t, members), FB: rapid.SampledFrom([]string{"x", "#", "=", "%"}).Draw(t, "fb")}
 			if lm.Width(o.R) == 2 {
